@@ -386,12 +386,7 @@ func ruleIDHandling(c *chk.Ctx) {
 
 // C02-D7: reader error pushes.
 func ruleReaderErrorReplies(c *chk.Ctx) {
-	var reader *ssa.Function
-	for _, s := range chanSites(c, "Recv") {
-		if ir.RecvNamed(s.fn) == c.M.Server {
-			reader = s.fn
-		}
-	}
+	reader, _ := readerOf(c, "server")
 	if reader == nil {
 		c.Undecided("PAIR.readerr", nil, "reader", 0, "reader not resolved")
 		return
@@ -832,14 +827,12 @@ func ruleParseRequests(c *chk.Ctx) {
 	}
 	// same list parser as the server's reader
 	var readerParser, prParser *ssa.Function
-	for _, s := range chanSites(c, "Recv") {
-		if ir.RecvNamed(s.fn) == c.M.Server {
-			ir.Calls(s.fn, func(ci ssa.CallInstruction) {
-				if g := ci.Common().StaticCallee(); g != nil && isListParser(c, g) {
-					readerParser = g
-				}
-			})
-		}
+	if rd, _ := readerOf(c, "server"); rd != nil {
+		c.P.ExtCalls(rd, func(ci ssa.CallInstruction) {
+			if g := ci.Common().StaticCallee(); g != nil && isListParser(c, g) {
+				readerParser = g
+			}
+		})
 	}
 	ir.Calls(pr, func(ci ssa.CallInstruction) {
 		if g := ci.Common().StaticCallee(); g != nil && isListParser(c, g) {
